@@ -3,7 +3,7 @@
 import sys
 BASE = dict(FactorNames="<- N_tiny", Powers="<- P_pm2", MaxFactors="= 1", Mags="<- M_one", TargetNames="<- N_tiny",
             TargetPowers="<- P_pm2", MaxTFactors="= 1", ScaleKs="<- K_one", Kinds='= {"list"}', PerturbNames="<- N_base",
-            RegPool="<- Regs2", Keys='= {"energy"}', HelperNames='= {"linspace"}', Plan="<- Plan_conv1")
+            RegPool="<- Regs2s", Keys='= {"energy"}', HelperNames='= {"linspace"}', Plan="<- Plan_conv1")
 INV = ["Reversible", "BackIsOriginal", "Composes", "Linear", "ConvertIffCompatible", "Canonical",
        "RegistryConsistent", "TypeOK", "QtyWellFormed"]
 def cfg(name, view=False, inv=INV, emit=True, **kw):
@@ -30,10 +30,10 @@ cfg("hist_q", inv=LIGHT, MaxFactors="= 1", MaxTFactors="= 1", Mags="<- M_one", S
     TargetPowers="<- P_pm1", TargetNames="<- N_small")
 cfg("hist_t", inv=LIGHT, FactorNames="<- N_q7", TargetNames="<- N_small", MaxFactors="= 1", MaxTFactors="= 1", Mags="<- M_one", ScaleKs="<- K_one",
     Kinds="<- Kinds_all", Plan="<- Plan_hist3t")
-cfg("reg_q", inv=LIGHT, FactorNames="<- N_mid", MaxFactors="= 1", RegPool="<- Regs12", Plan="<- Plan_reg")
-cfg("reg_t", inv=LIGHT, FactorNames="<- N_small", MaxFactors="= 2", RegPool="<- Regs108", Plan="<- Plan_reg", Powers="<- P_pm1")
-cfg("derived_q", inv=LIGHT, FactorNames='= {"m"}', Powers="<- P_one", RegPool="<- Regs12", Keys="<- Keys_all", Plan="<- Plan_derived")
-cfg("derived_t", inv=LIGHT, FactorNames='= {"m"}', Powers="<- P_one", RegPool="<- Regs108", Keys="<- Keys_all", Plan="<- Plan_derived")
+cfg("reg_q", inv=LIGHT, FactorNames="<- N_mid", MaxFactors="= 1", RegPool="<- Regs12s", Plan="<- Plan_reg")
+cfg("reg_t", inv=LIGHT, FactorNames="<- N_small", MaxFactors="= 2", RegPool="<- Regs108s", Plan="<- Plan_reg", Powers="<- P_pm1")
+cfg("derived_q", inv=LIGHT, FactorNames='= {"m"}', Powers="<- P_one", RegPool="<- Regs12s", Keys="<- Keys_all", Plan="<- Plan_derived")
+cfg("derived_t", inv=LIGHT, FactorNames='= {"m"}', Powers="<- P_one", RegPool="<- Regs108s", Keys="<- Keys_all", Plan="<- Plan_derived")
 cfg("own_t", inv=LIGHT, FactorNames='= {"m"}', Powers="<- P_one", RegPool="<- RegsOwn", Keys="<- Keys_all", Plan="<- Plan_derived")
 cfg("help_q", inv=LIGHT, FactorNames="<- N_tiny", MaxFactors="= 1", Powers="<- P_pm1", TargetPowers="<- P_pm1", Mags="<- M_pos", HelperNames="<- H_all", Plan="<- Plan_help2")
 cfg("help_t", inv=LIGHT, FactorNames="<- N_q7", TargetNames="<- N_q7", MaxFactors="= 2", MaxTFactors="= 2", Powers="<- P_pm1", TargetPowers="<- P_pm1",
